@@ -455,6 +455,11 @@ var c20Corpus = []struct{ name, raw, expect string }{
 	{"primary-key-with-slash", "type: test-only\nauthority-id: a\nprimary-key: a/b\n" + c20K + "\n\nAXNpZw==", "reject"},
 	{"two-in-a-stream", c20H + c20K + "\n\nAXNpZw==\n\n" + c20H + "revision: 2\n" + c20K + "\n\nAXNpZw==\n", ""},
 	{"second-truncated", c20H + c20K + "\n\nAXNpZw==\n\n" + c20H + "revision: 2\n", ""},
+	{"bad-map-key", c20H + "x:\n  K: v\n" + c20K + "\n\nAXNpZw==", "reject"},
+	{"repeated-map-key", c20H + "x:\n  k: v\n  k: w\n" + c20K + "\n\nAXNpZw==", "reject"},
+	{"tab-indent", c20H + "x:\n\t- v\n" + c20K + "\n\nAXNpZw==", "reject"},
+	{"map-entry-no-space", c20H + "x:\n  k:v\n" + c20K + "\n\nAXNpZw==", "reject"},
+	{"list-entry-no-space", c20H + "x:\n  -v\n" + c20K + "\n\nAXNpZw==", "reject"},
 	{"colon-only-lines", ":\n:\n:\n\n:", "reject"},
 	{"deep-indent", c20H + "x:\n  -\n    -\n      -\n        -\n          -\n            -\n              - v\n" + c20K + "\n\nAXNpZw==", "accept"},
 }
